@@ -193,13 +193,58 @@ func genCase(t *rapid.T) Case {
 	num := func(t *rapid.T, l string) float32 { return gen.Moderate(t, l, 200) }
 	np := rapid.IntRange(1, 3).Draw(t, "paths")
 	for p := 0; p < np; p++ {
-		c.Ops = append(c.Ops, ops.OpStartPath(0, num(t, "sx"), num(t, "sy")))
+		sp := ops.OpStartPath(0, num(t, "sx"), num(t, "sy"))
+		c.Ops = append(c.Ops, sp)
+		// pen and sub-path start in viewBox space, to build exact coincidences
+		penX, penY := sp.Arg(0), sp.Arg(1)
+		startX, startY := penX, penY
 		n := rapid.IntRange(1, 40).Draw(t, "nops")
 		for len(c.Ops) < 2000 && n > 0 {
 			k := rapid.SampledFrom(gen.DrawVerbs[:16]).Draw(t, "verb")
 			run := rapid.SampledFrom([]int{1, 1, 1, 2, 3, 5}).Draw(t, "run")
 			for r := 0; r < run && n > 0; r++ {
-				c.Ops = append(c.Ops, gen.DrawOp(t, k, num, "d"))
+				o := gen.DrawOp(t, k, num, "d")
+				// sometimes a control point or target coincides exactly with the pen
+				// or with the start of the sub-path (shared vertices, zero-length
+				// relative offsets: ordinary in hand-written and exported paths)
+				if na := k.NArgs(); na >= 2 && rapid.IntRange(0, 5).Draw(t, "coincide") == 0 {
+					pair := 2 * rapid.IntRange(0, na/2-1).Draw(t, "pair")
+					tx, ty := penX, penY
+					if rapid.Bool().Draw(t, "tostart") {
+						tx, ty = startX, startY
+					}
+					if k.IsRelative() {
+						refX, refY := penX, penY
+						if k == ops.ClosePathRelMoveTo {
+							refX, refY = startX, startY
+						}
+						tx, ty = tx-refX, ty-refY
+					}
+					o.F[pair], o.F[pair+1] = ops.F32(tx), ops.F32(ty)
+				}
+				c.Ops = append(c.Ops, o)
+				// track the pen (float32 arithmetic as a caller would do it)
+				na := k.NArgs()
+				switch {
+				case k == ops.AbsHLineTo:
+					penX = o.Arg(0)
+				case k == ops.RelHLineTo:
+					penX += o.Arg(0)
+				case k == ops.AbsVLineTo:
+					penY = o.Arg(0)
+				case k == ops.RelVLineTo:
+					penY += o.Arg(0)
+				case k == ops.ClosePathAbsMoveTo:
+					penX, penY = o.Arg(0), o.Arg(1)
+					startX, startY = penX, penY
+				case k == ops.ClosePathRelMoveTo:
+					penX, penY = startX+o.Arg(0), startY+o.Arg(1)
+					startX, startY = penX, penY
+				case k.IsRelative():
+					penX, penY = penX+o.Arg(na-2), penY+o.Arg(na-1)
+				default:
+					penX, penY = o.Arg(na-2), o.Arg(na-1)
+				}
 				n--
 			}
 		}
